@@ -427,6 +427,18 @@ impl BlockManager {
         {
             state.reclaiming_blocks.insert(block.id());
             self.inner.metrics.storage_block_engine_block_reclaiming.increase(1);
+            // the picked block's invalid bytes (in place of the `clean` count): tells an invalid-ratio pick from a
+            // fifo pick
+            #[cfg(feature = "verif")]
+            verif_events::record((
+                "pickinv",
+                block.id(),
+                block.statistics().invalid.load(std::sync::atomic::Ordering::Relaxed),
+                0,
+                0,
+                0,
+                0,
+            ));
             verif_event!(state, "pick", block.id());
             let block = ReclaimingBlock {
                 block_manager: self.clone(),
